@@ -18,6 +18,10 @@ for l in open(os.path.join(VERIF, 'properties.jsonl')):
     PROP[d['id']] = d['title']
 
 NEEDS = {
+ 'C04f-lookahead-at-buffer-end': '--sequential (or in-process split buffers); an input-chunk boundary exactly at capacity-1 encoded bytes whose last three bytes start a run, the next chunk starting with a different byte',
+ 'C06f-stream2-level-not-stored': 'a concatenated file whose later stream has a HIGHER level digit than the first and a block larger than first_level*100000 bytes',
+ 'C13f-test-mode-fastpath-leaks-outbuf': '-t/--test on an input whose decompressed size is large (concatenated bombs); -d/-dc and compression do not reach the branch',
+ 'C20f-sort-alphabet-skips-eob': 'a multi-table block whose last-group table counts EOB once and only a few symbols zero times (EOB then gets the deepest code)',
  'C01-finish-run-ge3': '--sequential; a run of >= 4 equal bytes crossing an N*100000-byte chunk edge while the block holds exactly capacity-1 bytes',
  'C02-finish-run-nolookahead': '--sequential; three equal bytes ending a chunk, the run continuing in the next chunk, block at capacity-1',
  'C03-seq-early-close': '--sequential and a source that stalls in the middle of a chunk (slow pipe)',
